@@ -326,6 +326,9 @@ func (p *Path) branch(c *Term) bool {
 		other = c
 	}
 	res, m := p.check(other)
+	if res == "unknown" && len(p.eng.cfg.FinalSolvers) > 0 {
+		res, m = p.finalCheck(other)
+	}
 	atomic.AddInt64(&p.res.Decisions, 1)
 	d := Decision{Taken: b}
 	switch res {
